@@ -54,6 +54,8 @@ type perturbation struct {
 	// EndAt >= 0: the inbound transport stream ends at this absolute offset with EndErr ("eof"/"err").
 	EndAt  int    `json:"transport_end_at"`
 	EndErr string `json:"transport_end_kind,omitempty"`
+	// DataWithEnd: the transport returns the last bytes before the end together with the end error (n > 0, err != nil)
+	DataWithEnd bool `json:"last_bytes_returned_with_the_error,omitempty"`
 	// WriteFault: the k-th transport Write (0-based) accepts only FaultN bytes and returns FaultErr ("err" or "short").
 	FaultK   int    `json:"write_fault_call"`
 	FaultN   int    `json:"write_fault_n"`
@@ -281,6 +283,10 @@ func execute(sc scenario, p perturbation, sink violationSink) (outcome string) {
 			return len(b), nil
 		}
 	}
+	t.DataWithEnd = p.DataWithEnd
+	// halfClosed: the client's direction has ended with EOF; the backend's remaining records still go out (and must be exactly those)
+	halfClosed := false
+	endResult := ""
 	// absolute offsets of client steps
 	abs := 0
 	fed := 0
@@ -320,6 +326,9 @@ func execute(sc scenario, p perturbation, sink violationSink) (outcome string) {
 		st := &sc.steps[si]
 		switch st.dir {
 		case 'c':
+			if halfClosed {
+				continue
+			}
 			stepStart := abs
 			abs += len(st.data)
 			limit := len(st.data) // how much of this step's input will ever arrive
@@ -447,6 +456,14 @@ func execute(sc scenario, p perturbation, sink violationSink) (outcome string) {
 				if n, err2 := conn.Read(buf); n != 0 || err2 == nil {
 					sink("end-error-not-sticky", fmt.Sprintf("second Read after the error returned (%d,%v)", n, err2))
 				}
+				if p.EndErr == "eof" && conn != nil {
+					// a half-closed client can still be written to: run the backend's remaining steps
+					halfClosed, endResult = true, "end-delivered-then-"+errKind(rerr)+"+backend-flight-after-half-close"
+					if t.CloseCount > 0 {
+						sink("transport-closed-on-read-end", "the Conn closed the transport because the client's direction ended")
+					}
+					continue
+				}
 				return "end-delivered-then-" + errKind(rerr)
 			}
 		case 'b':
@@ -523,6 +540,9 @@ func execute(sc scenario, p perturbation, sink violationSink) (outcome string) {
 				return "violation"
 			}
 		}
+	}
+	if endResult != "" {
+		return endResult
 	}
 	return "ok"
 }
@@ -604,9 +624,11 @@ func Run(r *ev.Run) {
 					continue
 				}
 				for _, k := range []string{"eof", "err"} {
-					p := none
-					p.Scenario, p.Buf, p.EndAt, p.EndErr = sc.name, b, o, k
-					jobs = append(jobs, job{si, p})
+					for _, dwe := range []bool{false, true} {
+						p := none
+						p.Scenario, p.Buf, p.EndAt, p.EndErr, p.DataWithEnd = sc.name, b, o, k, dwe
+						jobs = append(jobs, job{si, p})
+					}
 				}
 			}
 		}
